@@ -23,7 +23,9 @@ from . import tables as T
 from .core import enc_str
 
 ID = 'C17'
-RULE = ('forms: matrices from tables.rand_spec (dims 1..4, all value kinds incl. 0/1 and integer matrices) encoded in '
+RULE = ('fixed: the malformed sweep (too few / too many ids per axis and on both) on all-zero 2x3 / 3x1 / 1x1 matrices in every form that states a shape '
+        '(ndarray float64/int64/bool/float32/uint8, nested lists, row arrays, sparse / dok / mixed rows and all six scipy layouts without stored entries); '
+        'forms: matrices from tables.rand_spec (dims 1..4, all value kinds incl. 0/1 and integer matrices) encoded in '
         '3-5 of 24 input variants {ndarray float/int/bool, nested dense lists, triples (non-zero only / with explicit '
         'zeros / with a value split over duplicate entries, shuffled), coordinate dict (with / without zeros), list of '
         'row arrays float/int, list of row dicts keyed (0, col) (with / without zeros), list of sparse rows (stored zeros, '
@@ -970,7 +972,42 @@ def gen_uc(rng):
     return {'kind': 'uc', 'recs': recs, 'via': via, 'fasta': fasta}
 
 
+def fixed_zero_cases():
+    """the malformed sweep on ALL-ZERO matrices, at the head of every run: every form that states a shape
+    (dense ndarray in several dtypes, nested lists, row arrays, and every sparse form WITHOUT stored entries),
+    with too few / too many ids on each axis and on both; the id counts decide nothing, the shape does"""
+    out = []
+    for nr, nc in ((2, 3), (3, 1), (1, 1)):
+        Z = [[0.0] * nc for _ in range(nr)]
+        forms = [('array_%s' % dt, ['array', dt, nr, nc, Z]) for dt in ('float64', 'int64', 'bool', 'float32', 'uint8')]
+        forms += [('lists', ['lists', Z]), ('rowarrays', ['rowarrays', 'float64', Z]), ('rowarrays_int', ['rowarrays', 'int8', Z]),
+                  ('sparserows', ['sparserows', [[nc, []] for _ in range(nr)]]),
+                  ('dokrows', ['dokrows', [['dok', nc, []] for _ in range(nr)]]),
+                  ('mixedrows_csr_first', ['mixedrows', [['csr' if i == 0 else 'dok', nc, []] for i in range(nr)]]),
+                  ('rowdicts', ['rowdicts', [[] for _ in range(nr)]]),
+                  ('csr_int', ['sparse', 'csr', 'int32', nr, nc, []])]
+        forms += [(lay, ['sparse', lay, 'float64', nr, nc, []]) for lay in SPARSE_LAYOUTS]
+        obs = ['o%d' % i for i in range(nr)]
+        smp = ['s%d' % j for j in range(nc)]
+        idsets = [(obs, smp, []),
+                  (obs[:-1], smp, ['few:o']), (obs + ['oX'], smp, ['many:o']),
+                  (obs, smp[:-1], ['few:s']), (obs, smp + ['sX'], ['many:s']),
+                  (obs + ['oX'], smp + ['sX'], ['many:o', 'many:s']), (obs[:-1], smp + ['sX'], ['few:o', 'many:s']),
+                  (obs + ['oX', 'oY'], smp[:-1], ['many:o', 'few:s']),
+                  # as many ids on both axes as the LONGER side of the matrix (a 2 x 3 matrix with 3 and 3 ids)
+                  (['o%d' % i for i in range(max(nr, nc))], ['s%d' % j for j in range(max(nr, nc))], ['square-ids'])]
+        for variant, inp in forms:
+            for oids, sids, mal in idsets:
+                if not oids or not sids:
+                    continue
+                out.append({'kind': 'ctor', 'variant': variant, 'inp': inp, 'oids': list(oids), 'sids': list(sids), 'omd': None,
+                            'smd': None, 'type': None, 'mal': list(mal) + ['all-zero'], 'profile': None, 'after_errstate': None})
+    return out
+
+
 def gen(rng, tier):
+    for c in fixed_zero_cases():
+        yield c
     k = 1 if tier == 'quick' else 10
     for _ in range(800 * k):
         yield gen_forms(rng)
